@@ -20,6 +20,7 @@ class Hub:
 
     def __init__(self, corrupt=(), holds=None, max_hold=0.08, mode="firmware", instant=False):
         self.instant = instant           # zero latency: the reply is read and handled by the host's reader BEFORE write() returns
+        self.auto = None                 # manual mode: callable(data) -> lines said at once (zero latency) for that transmission
         self.lock = threading.RLock()
         self.events = []
         self.corrupt = set(corrupt)      # indices (0-based) of job-phase transmissions the link corrupts
@@ -53,6 +54,13 @@ class Hub:
             bad = i in self.corrupt and data.startswith(b"N")    # un-numbered priority commands carry no checksum: not corrupted here
             self.events.append({"k": "tx", "text": list(data), "bad": bad, "i": i})
             target = None
+            if self.mode == "manual" and self.auto is not None:
+                # scripted device with zero latency for chosen statements: the lines it says are handed to the reader
+                # before write() returns to the sending thread
+                for line in self.auto(data):
+                    self.released.append((line, {"k": "rel", "text": list(line)}))
+                    self.nrel += 1
+                    target = self.nrel
             if self.mode == "firmware":
                 for r in self._firmware(data, bad):
                     self.owed.append((r, time.monotonic()))
@@ -348,7 +356,7 @@ def run_job(lines, corrupt=(), holds=None, deadline=20.0, pauses=(), instant=Fal
             "job": [list(x.encode("ascii")) for x in job], "raw": lines, "ev": ev}
 
 
-def run_life(jobs, actions, corrupt=(), holds=None, deadline=25.0, preamble=()):
+def run_life(jobs, actions, corrupt=(), holds=None, deadline=25.0, preamble=(), instant=False):
     """The job life cycle of the real printcore (beyond C15): several startprint() calls, pause(), resume(),
     cancelprint() and the host command ';@pause' inside a job.
     jobs: list of jobs (lists of raw lines); the first is started at once.
@@ -361,6 +369,7 @@ def run_life(jobs, actions, corrupt=(), holds=None, deadline=25.0, preamble=()):
     hub = Hub(corrupt=corrupt, holds=holds)
     joined = False
     pending = [dict(a) for a in actions]
+    want_instant = instant
     nextjob = 0
 
     def drain(limit=2.0):
@@ -421,6 +430,7 @@ def run_life(jobs, actions, corrupt=(), holds=None, deadline=25.0, preamble=()):
                     hub.events.append({"k": "pre_end"})
                     hub.ntx = 0
                     hub.nrel = 0
+            hub.instant = want_instant          # zero latency from here on (not during the connection handshake)
             hub.log({"k": "start", "job": nextjob + 1})
             if not p.startprint(gcoder.GCode(jobs[nextjob])):
                 raise RuntimeError("startprint refused")
@@ -520,7 +530,7 @@ def _is_m110(data):
 
 
 def run_direct(stmts, acks, status=None, late_hs=False, settle=0.02, do_disconnect=True, readings=False,
-               deadline=2.5, mode="serial", lose_at=0, slow=None, lose_idle_after=0):
+               deadline=2.5, mode="serial", lose_at=0, slow=None, lose_idle_after=0, instant=()):
     """Drive the real SerialWriter/PrintrunWriter. stmts: list of bytes handed to write(); acks: the reply line
     (bytes) the device gives to each statement; status: {k: [lines pushed before the ack of statement k]};
     late_hs: the ok of the second start-up M110 is released only after the first write() began."""
@@ -562,6 +572,20 @@ def run_direct(stmts, acks, status=None, late_hs=False, settle=0.02, do_disconne
                         hub.released.append((OK, {"k": "rel", "text": list(OK), "hs": True}))
                         hub.cv.notify_all()
 
+    instant = set(instant or ())
+    answered = set()
+
+    def auto(data):
+        """Zero latency for the statements in `instant`: status lines and acknowledgement are said inside write()."""
+        if _is_m110(data) or bytes(data).startswith(b"G4 P0") or not instant:
+            return []
+        k = ntx_stmt()                  # this transmission is already logged: it is statement k
+        if k in instant and k not in answered and 1 <= k <= len(acks):
+            answered.add(k)
+            return [bytes(x) for x in status.get(k, [])] + [acks[k - 1]]
+        return []
+    hub.auto = auto
+
     old_poll = pw.POLLING_INTERVAL
     pw.POLLING_INTERVAL = 0.003
     with (patched(hub) if mode == "serial" else patched_socket(hub)):
@@ -602,6 +626,12 @@ def run_direct(stmts, acks, status=None, late_hs=False, settle=0.02, do_disconne
                     hub.push(held.pop(0))["hs"] = True
                     time.sleep(settle)
                 serve_handshake()
+                if k in answered:               # zero latency: everything was said inside write()
+                    ok = await_(lambda: any(e["k"] == "ret" and e["s"] == k for e in hub.events), deadline)
+                    if not ok:
+                        hub.log({"k": "stuck", "s": k, "tx": got_tx})
+                        break
+                    continue
                 for line in status.get(k, []):
                     hub.push(line)
                 time.sleep(settle)             # a window in which a too-eager write() can return; never a verdict
